@@ -206,18 +206,23 @@ Qed.
 (* ---- the loop invariant ------------------------------------------------------------------------------ *)
 (* b holds the first (len whole) bytes of the buffer after the writes so far: either nothing was compacted
    yet (j = 0) and b is the collapse, or b = A ++ M ++ C with A = b[:j], C = b[k:] and A ++ C the collapse *)
-Definition Inv0 (whole b : list Z) (j k : Z) : Prop :=
-  len b = len whole /\
-  ((j = 0 /\ k = 0 /\ b = collapse whole) \/
-   (exists A M C, b = A ++ M ++ C /\ len A = j /\ j + len M = k /\ 1 <= j /\ 1 <= len M /\ A ++ C = collapse whole)).
+Definition VInv (D b : list Z) (j k : Z) : Prop :=
+  (j = 0 /\ k = 0 /\ b = D) \/
+  (exists A M C, b = A ++ M ++ C /\ len A = j /\ j + len M = k /\ 1 <= j /\ 1 <= len M /\ A ++ C = D).
+Definition Inv0 (whole b : list Z) (j k : Z) : Prop := len b = len whole /\ VInv (collapse whole) b j k.
+
+(* appending bytes that are neither compacted nor marked *)
+Lemma vinv_app D b j k X : VInv D b j k -> VInv (D ++ X) (b ++ X) j k.
+Proof.
+  intros [(-> & -> & ->)|(A & M & C & -> & HA & HM & Hj & Hm & Hc)].
+  - left. repeat split.
+  - right. exists A, M, (C ++ X). rewrite <- Hc. rewrite <- !app_assoc. repeat split; assumption.
+Qed.
 
 Lemma inv_step_text pre bpre j k d : Inv0 pre bpre j k -> ws5 d = false -> Inv0 (pre ++ [d]) (bpre ++ [d]) j k.
 Proof.
   intros [Hl H] Hd. split; [rewrite !len_app; lia|].
-  unfold collapse. rewrite collapse_from_snoc_text by exact Hd. fold (collapse pre).
-  destruct H as [(-> & -> & ->)|(A & M & C & -> & HA & HM & Hj & Hm & Hc)].
-  - left. repeat split.
-  - right. exists A, M, (C ++ [d]). rewrite <- Hc. rewrite <- !app_assoc. repeat split; assumption.
+  unfold collapse. rewrite collapse_from_snoc_text by exact Hd. fold (collapse pre). apply vinv_app. exact H.
 Qed.
 
 Lemma ws_body_text bpre c t j k : ws5 c = false ->
@@ -253,16 +258,14 @@ Proof.
   intros Hp Hn Hr. unfold collapse. rewrite collapse_from_app by exact Hp. rewrite (collapse_run run) by assumption. reflexivity.
 Qed.
 
-Lemma inv_step_run pre bpre j k c r t' :
-  Inv0 pre bpre j k -> last_ws false pre = false ->
+Lemma vinv_step_run D bpre j k c r t' :
+  VInv D bpre j k ->
   ws5 c = true -> forallb ws5 r = true -> (match t' with [] => True | d :: _ => ws5 d = false end) ->
   exists bpre1 i1 j' k',
     ws_body (bpre ++ c :: r ++ t') (len bpre) j k = Ok (bpre1 ++ t', i1, j', k') /\
-    i1 = len bpre1 /\ Inv0 (pre ++ c :: r) bpre1 j' k'.
+    i1 = len bpre1 /\ len bpre1 = len bpre + 1 + len r /\ VInv (D ++ [run_mark (c :: r)]) bpre1 j' k'.
 Proof.
-  intros [Hl H] Hp Hc Hr Ht.
-  assert (Hrun : forallb ws5 (c :: r) = true) by (cbn [forallb]; rewrite Hc, Hr; reflexivity).
-  pose proof (collapse_closed_run pre (c :: r) Hp ltac:(discriminate) Hrun) as Hcol.
+  intros H Hc Hr Ht.
   set (mk := run_mark (c :: r)) in *.
   rewrite (ws_body_run bpre c r t' j k Hc Hr Ht). cbv zeta. fold mk.
   pose proof (len_nonneg bpre) as Hb0. pose proof (len_nonneg r) as Hr0.
@@ -270,10 +273,8 @@ Proof.
   - change (len (@nil Z)) with 0. replace (1 <? 1 + 0) with false by lia.
     exists (bpre ++ [mk]), (len bpre + 1 + 0), j, k. split; [rewrite <- app_assoc; reflexivity|].
     split; [rewrite len_app; change (len [mk]) with 1; lia|].
-    split; [rewrite !len_app; change (len [mk]) with 1; change (len [c]) with 1; lia|].
-    rewrite Hcol. destruct H as [(-> & -> & ->)|(A & M & C & -> & HA & HM & Hj & Hm & Hcc)].
-    + left. repeat split.
-    + right. exists A, M, (C ++ [mk]). rewrite <- Hcc, <- !app_assoc. repeat split; assumption.
+    split; [rewrite len_app; change (len [mk]) with 1; lia|].
+    apply vinv_app. exact H.
   - set (r := r1 :: r') in *. assert (Hr1 : 1 <= len r) by (unfold r; rewrite len_cons; pose proof (len_nonneg r'); lia).
     replace (1 <? 1 + len r) with true by lia.
     destruct H as [(-> & -> & Hb)|(A & M & C & Hb & HA & HM & Hj & Hm & Hcc)].
@@ -281,8 +282,8 @@ Proof.
       exists (bpre ++ mk :: r), (len bpre + 1 + len r), (len bpre + 1), (len bpre + 1 + len r).
       split; [rewrite <- app_assoc; reflexivity|].
       split; [rewrite len_app, len_cons; lia|].
-      split; [rewrite !len_app, !len_cons; lia|].
-      right. exists (bpre ++ [mk]), r, []. rewrite !app_nil_r, Hcol, <- Hb, <- app_assoc.
+      split; [rewrite len_app, len_cons; lia|].
+      right. exists (bpre ++ [mk]), r, []. rewrite !app_nil_r, <- Hb, <- app_assoc.
       repeat split; try reflexivity; try lia. rewrite len_app. change (len [mk]) with 1. lia.
     + replace (j =? 0) with false by lia.
       assert (E : bpre ++ mk :: r ++ t' = A ++ M ++ (C ++ [mk]) ++ (r ++ t'))
@@ -298,9 +299,25 @@ Proof.
       exists (A ++ (C ++ [mk]) ++ G ++ r), (len A + len M + len (C ++ [mk]) + len r), (len A + len (C ++ [mk])), (len A + len M + len (C ++ [mk]) + len r).
       split; [rewrite <- !app_assoc; reflexivity|].
       split; [rewrite !len_app; change (len [mk]) with 1; lia|].
-      split; [rewrite Hb in Hl; rewrite !len_app in Hl; rewrite !len_app; change (len [mk]) with 1; rewrite (len_cons c r); lia|].
-      right. exists (A ++ C ++ [mk]), (G ++ r), []. rewrite !app_nil_r, Hcol, <- Hcc, <- !app_assoc.
+      split; [rewrite !len_app; change (len [mk]) with 1; lia|].
+      right. exists (A ++ C ++ [mk]), (G ++ r), []. rewrite !app_nil_r, <- Hcc, <- !app_assoc.
       repeat split; try reflexivity; rewrite !len_app; change (len [mk]) with 1; pose proof (len_nonneg C); lia.
+Qed.
+
+Lemma inv_step_run pre bpre j k c r t' :
+  Inv0 pre bpre j k -> last_ws false pre = false ->
+  ws5 c = true -> forallb ws5 r = true -> (match t' with [] => True | d :: _ => ws5 d = false end) ->
+  exists bpre1 i1 j' k',
+    ws_body (bpre ++ c :: r ++ t') (len bpre) j k = Ok (bpre1 ++ t', i1, j', k') /\
+    i1 = len bpre1 /\ Inv0 (pre ++ c :: r) bpre1 j' k'.
+Proof.
+  intros [Hl H] Hp Hc Hr Ht.
+  assert (Hrun : forallb ws5 (c :: r) = true) by (cbn [forallb]; rewrite Hc, Hr; reflexivity).
+  pose proof (collapse_closed_run pre (c :: r) Hp ltac:(discriminate) Hrun) as Hcol.
+  destruct (vinv_step_run _ bpre j k c r t' H Hc Hr Ht) as (bpre1 & i1 & j' & k' & E & Hi & Hlen & HV).
+  exists bpre1, i1, j', k'. split; [exact E|]. split; [exact Hi|]. split.
+  - rewrite len_app, len_cons. lia.
+  - rewrite Hcol. exact HV.
 Qed.
 
 Lemma ws_loop_done f b i j k : len b <= i -> ws_loop f b i j k = Ok (b, j, k).
@@ -349,9 +366,9 @@ Proof.
   destruct l as [|a [|b t]]; unfold len; cbn [length]; intros H; try lia. eauto.
 Qed.
 
-Lemma ws_finish_correct whole b j k : Inv0 whole b j k -> ws_finish b j k = Ok (collapse whole).
+Lemma ws_finish_v D b j k : VInv D b j k -> ws_finish b j k = Ok D.
 Proof.
-  intros [Hl [(-> & -> & ->)|(A & M & C & -> & HA & HM & Hj & Hm & Hc)]]; unfold ws_finish.
+  intros [(-> & -> & ->)|(A & M & C & -> & HA & HM & Hj & Hm & Hc)]; unfold ws_finish.
   - reflexivity.
   - replace (j =? 0) with false by lia. rewrite <- Hc.
     pose proof (len_nonneg A). pose proof (len_nonneg M). pose proof (len_nonneg C).
@@ -384,6 +401,9 @@ Proof.
         replace ((0 <=? 0) && (0 <=? j) && (j <=? len A + (len M + 0))) with true by lia.
         rewrite <- HA. rewrite firstz_app_len. reflexivity.
 Qed.
+
+Lemma ws_finish_correct whole b j k : Inv0 whole b j k -> ws_finish b j k = Ok (collapse whole).
+Proof. intros [_ H]. apply ws_finish_v. exact H. Qed.
 
 Lemma ws_spec_fun b : replace_multiple_ws b = Ok (collapse b).
 Proof.
